@@ -18,7 +18,7 @@ LEVEL_TEXT = ("Replies with 0..8 generated 16-byte records (slot ids 0..255 incl
               "the record it received. Sampling of zones/dates/records; not a proof.")
 RULE = ("listing case = (zone, now, records); round-trip case = (zone, now, start, end, days). Non-trivial = >= 2 records or zone "
         "!= UTC or a date within a day of a UTC-offset transition; distinct by the whole case."
-        ' Round trips draw half of their clock strings from 00:00-03:59 on DST-change days; in the direct path the day sets of the first result are cleared and the same reply is parsed again.')
+        ' Round trips draw half of their clock strings from 00:00-03:59 on DST-change days; in the direct path the day sets of the first result are cleared and the same reply is parsed again; the days of a round trip are handed over as set, frozenset, list or tuple; schedule records whose time stamps contain the byte pairs fe f0 / f0 fe.')
 ASSUMPTIONS = [
     "reply layout: 45-byte header, n x 16-byte records (slot, enabled, mask, state, start LE32, end LE32, 4 opaque), 4-byte trailer, pinned by tests/testresources/test_schedule_parser capture",
     "odd day masks and times inside a DST gap are unspecified and not generated / skipped; 'display' is C13's business",
@@ -138,7 +138,7 @@ async def roundtrip(case):
     cl = ops.Client(dev, 1, case.get("device_id", "a1b2c3"), "18")
     await cl.connect()
     try:
-        a = {"start": case["start"], "end": case["end"], "days": case["days"] or None, "days_form": "set"}
+        a = {"start": case["start"], "end": case["end"], "days": case["days"] or None, "days_form": case.get("days_form", "set")}
         dev.set_script(ops.good_script("create_schedule", a, "0a0b0c0d"))
         status, res = await cl.call("create_schedule", a)
         if status != "ok":
@@ -205,13 +205,16 @@ def strat_listing(tier, via):
     def record(base_epoch):
         start = st.one_of(
             st.tuples(st.integers(-4 * 1440, 4 * 1440)).map(lambda t: base_epoch // 60 * 60 + t[0] * 60),
-            st.integers(0, 2 ** 32 - 1))
+            st.integers(0, 2 ** 32 - 1),
+            # time stamps whose little-endian bytes spell the frame magic fe f0 / the header terminator f0 fe somewhere
+            st.tuples(st.sampled_from([b"\xfe\xf0", b"\xf0\xfe"]), st.integers(0, 2), st.integers(0, 65535)).map(
+                lambda t: int.from_bytes((t[2].to_bytes(2, "little") * 2)[:t[1]] + t[0] + (t[2].to_bytes(2, "big") * 2)[:2 - t[1]], "little")))
         return st.builds(
             lambda slot, en, mask, state, s, dur, opq: {"slot": slot, "enabled": en, "mask": mask, "state": state, "start": s % 2 ** 32,
                                                          "end": (s + dur * 60) % 2 ** 32, "opaque": opq},
             st.one_of(st.integers(0, 7), st.integers(0, 255)), st.booleans(),
             st.one_of(st.just(0), st.integers(1, 127).map(lambda m: m * 2)), st.integers(0, 1), start, st.integers(0, 1439),
-            st.binary(min_size=4, max_size=4).map(bytes.hex))
+            st.one_of(st.binary(min_size=4, max_size=4), st.sampled_from([b"\xfe\xf0\x00\x00", b"\x00\xf0\xfe\x00", b"\x00\x00\xfe\xf0"])).map(bytes.hex))
 
     def for_date(t):
         z, (y, mo, d), near = t
@@ -243,10 +246,11 @@ def strat_roundtrip(tier):
     def for_date(t):
         z, (y, mo, d), near = t
         return st.builds(
-            lambda now_s, start, end, days, slot, dev: {"zone": z, "now": [y, mo, d, now_s // 3600, now_s // 60 % 60, now_s % 60],
-                                                        "start": start, "end": end, "days": days, "near": near, "slot": slot,
-                                                        "device_id": dev},
-            st.sampled_from([30, 43200, 86370, 21 * 3600 + 1800, 3 * 3600]), EARLY, EARLY, gen.day_sets, st.integers(0, 255), gen.device_ids)
+            lambda now_s, start, end, days, slot, dev, form: dict({"zone": z, "now": [y, mo, d, now_s // 3600, now_s // 60 % 60, now_s % 60],
+                                                                   "start": start, "end": end, "days": days, "near": near, "slot": slot,
+                                                                   "device_id": dev}, **({"days_form": form} if form != "set" and days else {})),
+            st.sampled_from([30, 43200, 86370, 21 * 3600 + 1800, 3 * 3600]), EARLY, EARLY, gen.day_sets, st.integers(0, 255), gen.device_ids,
+            st.sampled_from(["set", "set", "frozenset", "list", "tuple"]))
     return lambda: st.sampled_from(pool).flatmap(for_date)
 
 
